@@ -299,7 +299,9 @@ def r6(ctx):
     from . import actorfw
     actorfw.claim(ctx, "C12.R6", handlers=("InsertRemote", "SyncProcessMessage", "Subscribe", "Unsubscribe"), clients=("insert_remote", "sync_process_message", "subscribe", "unsubscribe"))
     actorfw.check_remote_origin(ctx, "C12.R6")
-    ctx.floor("C12.R6", 15)
+    from . import gossipin
+    gossipin.check(ctx, "C12.R6")      # a broadcast entry is applied with the peer that delivered it as the providing peer
+    ctx.floor("C12.R6", 18)
 
 
 def run(ctx):
